@@ -70,6 +70,8 @@ def gen_cases(tier, seed):
                 spec.append({"p": "extra", "k": "f", "size": 4, "seed": 2, "segs": None})
                 srcs = ["v0", "extra"]
             dstate = "absent"
+            if r.random() < 0.3:
+                srcs = ["v0", "v0"] + ([] if r.random() < 0.5 else ["v0"])      # the same source named more than once still is more than one source
         elif cls == "multi-with-T":
             # -T says "the destination is not a directory to copy into": with several sources that leaves every one of them mapped
             # onto the same path, whatever is there (cp: "extra operand")
@@ -77,11 +79,15 @@ def gen_cases(tier, seed):
                 spec.append({"p": "extra", "k": "f", "size": 4, "seed": 2, "segs": None})
                 srcs = ["v0", "extra"]
             opts += ["-T"]
+            if r.random() < 0.3:
+                srcs = [srcs[0], srcs[0]]
         elif cls == "multi-to-file":
             if len(srcs) < 2:
                 spec.append({"p": "extra", "k": "f", "size": 4, "seed": 2, "segs": None})
                 srcs = ["v0", "extra"]
             dstate = "file"
+            if r.random() < 0.3:
+                srcs = ["v0", "v0"]
         elif cls == "dir-onto-file-dest":
             spec.append({"p": "adir", "k": "d"})
             spec.append({"p": "adir/x", "k": "f", "size": 4, "seed": 2, "segs": None})
